@@ -25,6 +25,14 @@ class Event:
     def __repr__(self):
         return "%s(%s@%s)" % (self.kind, self.label, self.site)
 
+    # value semantics: the walker's state sets must converge in loops (an event re-created on every visit of an await is
+    # the same event)
+    def __eq__(self, other):
+        return isinstance(other, Event) and (self.kind, self.label, self.site, self.lease) == (other.kind, other.label, other.site, other.lease)
+
+    def __hash__(self):
+        return hash((self.kind, self.label, self.site, self.lease))
+
 
 class EventModel:
     def __init__(self, prog):
@@ -318,7 +326,9 @@ class Walker:
                     cur = cur | self._apply(cur, Event("Y", "select", bi.loc(a.poll_bb)))
                 outs |= cur
             return outs
-        if cls in ("join_next", "join_all", "shared"):
+        if cls in ("join_next", "join_all", "shared") or cls.startswith("other:"):
+            # (a future of a type the model does not know -- a RemoteHandle, a Timeout, an Abortable ..: whatever local
+            # coroutine was wrapped into it runs under this await and is dropped with it)
             cur = set(states)
             # children: coroutine descendants created in this body that are not awaited directly
             awaited = {prog.body_of_type(bi.body, x.fut_ty) for x in bi.awaits}
